@@ -46,6 +46,10 @@ def site(grp, n, tiers, count=2):
     name, what = _GROUPS[grp]
     d = _base(n)
     bulk = grp in (1, 4, 5)
+    if grp in (4, 5):
+        # task-set bulk reaches the ring fast path, whose cascade-host wrapper lambda (only created for pools with
+        # more than one wake group) is a costly function-pointer candidate: real build switch, configuration bound
+        d['cflags'] = d['cflags'] + ['-DDISPENSO_DISABLE_CASCADE_WAKERANGE']
     d.update({'name': '%s_n%d' % (name, n) + ('_c%d' % count if bulk else ''), 'src': 'inl.cpp', 'tiers': tiers,
               'defs': {'VF_N': n, 'VF_GROUP': grp, 'VF_COUNT': count, 'VF_MQ_CAP': 4},
               'bounds': 'one call of %s%s on a real ThreadPool(%d) (real constructor); %s' % (
@@ -68,10 +72,10 @@ INSTANCES = [
     site(0, 1, ['quick', 'thorough']),
     site(2, 1, ['quick', 'thorough']),
     site(3, 1, ['quick', 'thorough']),
-    site(4, 1, ['quick', 'thorough']),
     chain(0, 1, ['quick', 'thorough'], 3),
     chain(2, 1, ['quick', 'thorough'], 3),
     site(1, 1, ['thorough']),
+    site(4, 1, ['thorough']),
     site(5, 1, ['thorough']),
     chain(1, 1, ['thorough'], 4),
     chain(0, 1, ['thorough'], 4),
